@@ -22,14 +22,21 @@ PROP = dict(
         level_text="Theorems (Coq, closed under the global context) over a Gallina model of the tradeshield handlers, universally quantified over states, senders, "
                    "market prices and inner-call results: non-owner update / cancel / batch cancel refused without change; an execute request none of whose orders "
                    "is triggered changes nothing; the owner's cancel returns exactly the escrow and touches no other account; for the repaired ExecuteOrders a "
-                   "failed attempt changes nothing; for the code before fix: 8bfd5d3 two refutation witnesses (a failing perpetual.Open keeps its transfers: owner funds lost "
+                   "failed attempt changes nothing; over ALL histories of the repaired model without transfers to escrow accounts (induction over the op list, every "
+                   "op kind, any prices / inner results): every pending order's escrow account holds exactly its escrowed coin and all other escrow accounts are "
+                   "empty (invariant), so the owner's cancel always succeeds and returns the escrow in full, and wallet + escrows of every user are conserved by "
+                   "every step except the user's own executed orders / market buys / plain transfers / swap settlement (per step and composed over histories); for the code before fix: 8bfd5d3 two refutation witnesses (a failing perpetual.Open keeps its transfers: owner funds lost "
                    "from wallet+escrow while the order stays pending; any failed attempt strands the order with an empty escrow and the owner's cancel is refused). "
                    "The model is replayed by Coq's VM on the very op sequences the real app executed and must reproduce result kind, every user wallet, every "
                    "escrow account and both pending-order lists after every step.",
         level_note="Trusted: Coq kernel+VM; the Go harness; resolved market prices and inner results. The unchanged code violates the property "
                    "(C20:failed-execute-moved-owner-funds); the repaired model differs only inside ExecuteOrders.",
         assumptions=["C20_cancel_full assumes the escrow account holds exactly the escrowed amount (exact_escrow)",
-                     "C20_conserved_partial covers create and update steps in a well-formed state (WF); the history-level invariant and the steps that "
-                     "execute other owners' orders are not proved (see the comment in Props/C20.v)",
+                     "C20_escrow_invariant / C20_cancel_full_history / C20_conserved / C20_conserved_history are about the handler since fix: 8bfd5d3 (fixed = true) "
+                     "and assume no_escrow_transfers: no plain bank transfer of the history goes to an escrow account (third-party tokens there are not the "
+                     "owner's funds: a perpetual cancel leaves them behind, a spot cancel hands them to the owner); the harness does generate such transfers "
+                     "for the correspondence run",
+                     "C20_conserved excludes, for user u, exactly: execute requests listing an order of u whose attempt can succeed, a market-buy create of u, "
+                     "plain transfers from/to u, blocks that settle u's queued swaps (quiet s o u); C20_conserved_partial is kept from the first round",
                      "C20_failed_execute_unchanged_fixed is about ExecuteOrders as it is since fix: 8bfd5d3 (the harness compares the real code with the fixed = true model); the two _refuted theorems are about the pre-fix code"],
     )
